@@ -45,6 +45,7 @@ type Recorder struct {
 	DescOdd  map[string]int   // instance ids whose DescribeInstances is malformed (reservation count)
 	Conflict bool             // injected UPDATE failures are 409 Conflicts: a concurrent writer changed the node's taints meanwhile
 	AwsCode  string           // error code of failing AWS calls ("" = an untyped error)
+	Vanish   bool             // injected GET failures are real: the node object is gone (404 NotFound), from then on
 	n        int              // ordered calls so far
 }
 
@@ -58,6 +59,7 @@ func (r *Recorder) reset() {
 	r.FailDesc = map[string]bool{}
 	r.DescOdd = map[string]int{}
 	r.Conflict = false
+	r.Vanish = false
 }
 
 // awsErr is what a failing AWS call returns: an SDK error with a service code (throttling, expired credentials,
@@ -117,9 +119,10 @@ func (n *nodeSim) Get(ctx context.Context, name string, opts metav1.GetOptions) 
 	obj, ok := n.k.store[name]
 	if fail || !ok {
 		n.k.rec.record(cGetNode(name), false, rFail())
-		if fail {
+		if fail && !n.k.rec.Vanish {
 			return nil, errInjected
 		}
+		delete(n.k.store, name) // deleted by somebody else since the cache was filled
 		return nil, apierrors.NewNotFound(nodeGR, name)
 	}
 	cp := obj.DeepCopy()
@@ -181,21 +184,47 @@ type podListerSim struct {
 	rec   *Recorder
 	pods  []*v1.Pod
 	quiet bool // the harness itself is listing (observation after the scan): not the start of a group scan
+	// listing failures, by position of the group in the scan: the first listing made for that group fails (a retry would succeed)
+	failGroup map[int]bool
+	failed    map[int]bool
 }
+
+var errListing = errors.New("injected listing failure")
 
 func (l *podListerSim) List(sel labels.Selector) ([]*v1.Pod, error) {
 	if !l.quiet {
+		g := len(l.rec.Marks)
+		if l.failGroup[g] && l.failed[g] {
+			return l.pods, nil // a second listing for the same group: no new group scan starts here
+		}
 		l.rec.Marks = append(l.rec.Marks, len(l.rec.Entries))
+		if l.failGroup[g] {
+			l.failed[g] = true
+			return nil, errListing
+		}
 	}
 	return l.pods, nil
 }
 func (l *podListerSim) Pods(ns string) v1lister.PodNamespaceLister { return nil }
 
 type nodeListerSim struct {
-	nodes []*v1.Node
+	nodes     []*v1.Node
+	rec       *Recorder
+	quiet     bool
+	failGroup map[int]bool
+	failed    map[int]bool
 }
 
-func (l *nodeListerSim) List(sel labels.Selector) ([]*v1.Node, error) { return l.nodes, nil }
+func (l *nodeListerSim) List(sel labels.Selector) ([]*v1.Node, error) {
+	if l.rec != nil && !l.quiet {
+		g := len(l.rec.Marks) - 1 // the group whose pods were listed last
+		if l.failGroup[g] && !l.failed[g] {
+			l.failed[g] = true
+			return nil, errListing
+		}
+	}
+	return l.nodes, nil
+}
 func (l *nodeListerSim) Get(name string) (*v1.Node, error) {
 	for _, n := range l.nodes {
 		if n.Name == name {
